@@ -185,6 +185,29 @@ pub fn minimise(spec: &PropSpec, entries: &[(String, String)], key: &str, budget
             chunk /= 2;
         }
     }
+    // list-valued entries (chunk cut positions): drop elements one at a time
+    let mut i = 0;
+    while i < cur.len() && used < budget {
+        let (k, val) = cur[i].clone();
+        if k.starts_with("cuts#") && val.contains(',') {
+            let mut items: Vec<String> = val.split(',').map(|x| x.to_string()).collect();
+            let mut j = 0;
+            while j < items.len() && items.len() > 1 && used < budget {
+                let mut cand_items = items.clone();
+                cand_items.remove(j);
+                let mut cand = cur.clone();
+                cand[i].1 = cand_items.join(",");
+                used += 1;
+                if fails(&cand) {
+                    items = cand_items;
+                    cur = cand;
+                } else {
+                    j += 1;
+                }
+            }
+        }
+        i += 1;
+    }
     // shrink numeric values of the remaining fault entries towards small round numbers
     let mut i = 0;
     while i < cur.len() && used < budget {
